@@ -187,6 +187,11 @@ func (t *Token) validate() error {
 	requiredSafeTimestamp(t.notBefore, "NotBefore")
 	requiredSafeTimestamp(t.expiration, "Expiration")
 
+	// what can't be read back must not be issued
+	if _, err := command.Parse(t.command.String()); err != nil {
+		errs = errors.Join(errs, fmt.Errorf("invalid command: %w", err))
+	}
+
 	return errs
 }
 
